@@ -232,7 +232,8 @@ func Matrix(full bool) []*Schema {
 				case 4:
 					f.Kind, f.Shape, f.Key = String, Map, Uint32
 				case 5:
-					f.Kind, f.Shape, f.Group = Bytes, Oneof, 0
+					// one single-member oneof per occurrence (members of one group must be consecutive)
+					f.Kind, f.Shape, f.Group = Bytes, Oneof, shapes/6
 				}
 				shapes++
 				t.Fields = append(t.Fields, f)
